@@ -257,7 +257,20 @@ func (matrix *DenseInt16Matrix) Tip() {
   matrix.rowMax, matrix.colMax = matrix.colMax, matrix.rowMax
 }
 func (matrix *DenseInt16Matrix) AsVector() Vector {
-  return DenseInt16Vector(matrix.values)
+  if matrix.transposed || matrix.rowMax > matrix.rows || matrix.colMax > matrix.cols {
+    // a view does not own a contiguous row-major block: return its
+    // elements (a copy)
+    n, m := matrix.Dims()
+    v := make(DenseInt16Vector, n*m)
+    for i := 0; i < n; i++ {
+      for j := 0; j < m; j++ {
+        v[i*m + j] = matrix.values[matrix.index(i, j)]
+      }
+    }
+    return v
+  } else {
+    return DenseInt16Vector(matrix.values)
+  }
 }
 func (matrix *DenseInt16Matrix) storageLocation() uintptr {
   return uintptr(unsafe.Pointer(&matrix.values[0]))
@@ -349,7 +362,20 @@ func (matrix *DenseInt16Matrix) IsSymmetric(epsilon float64) bool {
   return true
 }
 func (matrix *DenseInt16Matrix) AsConstVector() ConstVector {
-  return DenseInt16Vector(matrix.values)
+  if matrix.transposed || matrix.rowMax > matrix.rows || matrix.colMax > matrix.cols {
+    // a view does not own a contiguous row-major block: return its
+    // elements (a copy)
+    n, m := matrix.Dims()
+    v := make(DenseInt16Vector, n*m)
+    for i := 0; i < n; i++ {
+      for j := 0; j < m; j++ {
+        v[i*m + j] = matrix.values[matrix.index(i, j)]
+      }
+    }
+    return v
+  } else {
+    return DenseInt16Vector(matrix.values)
+  }
 }
 /* implement ScalarContainer
  * -------------------------------------------------------------------------- */
